@@ -120,7 +120,18 @@ static int c11_g11y(toks_t *t)
     memset(pl[i].buf, 0xEE, pl[i].len); planes[i] = pl[i].buf;
   }
   tj3Set(hc, TJPARAM_SUBSAMP, ss); tj3Set(hc, TJPARAM_QUALITY, 85);
-  rc = tj3EncodeYUVPlanes8(hc, rgb.buf, w, 0, h, TJPF_RGB, planes, strides);
+  {
+    /* parameters of the entropy-coding stage, which colour conversion and downsampling do not involve, set on the instance (8th argument) */
+    int inert = t->n > 8 ? (int)tl(t, 8) : 0;
+    if (inert & 1) tj3Set(hc, TJPARAM_LOSSLESS, 1);
+    if (inert & 2) tj3Set(hc, TJPARAM_PROGRESSIVE, 1);
+    if (inert & 4) tj3Set(hc, TJPARAM_ARITHMETIC, 1);
+    if (inert & 8) tj3Set(hc, TJPARAM_OPTIMIZE, 1);
+    if (inert & 16) tj3Set(hc, TJPARAM_RESTARTROWS, 1);
+    rc = tj3EncodeYUVPlanes8(hc, rgb.buf, w, 0, h, TJPF_RGB, planes, strides);
+    if (inert & 1) tj3Set(hc, TJPARAM_LOSSLESS, 0);
+    if (inert & 4) tj3Set(hc, TJPARAM_ARITHMETIC, 0);
+  }
   if (rc < 0) { bad = "encodeyuv"; goto done; }
   /* padding columns of every plane row must be untouched */
   for (i = 0; i < np; i++) {
